@@ -66,7 +66,16 @@ Cap == /\ l <= Len(Rec) /\ Rec[l].ev = "cap"
           IN IF ok THEN TRUE ELSE PrintT(<<"BAD", l, ToJson([allowed |-> {}])>>)
        /\ UNCHANGED <<env, st>> /\ l' = l + 1
 
-TraceNext == Reset \/ Msg \/ Dev \/ Cap
+(* a plain IEEE 488.2 device that keeps the PROVIDED IEEE4882::stb(): `*STB?' for given ESR / ESE / SRE and MAV.
+   The same formula with no queue and no OPERation / QUEStionable registers; reading changes nothing. *)
+PlainStb == /\ l <= Len(Rec) /\ Rec[l].ev = "plainstb"
+            /\ LET ev == Rec[l]
+                   s  == [InitState EXCEPT !.esr = ToBits(ev.esr, 8), !.ese = ToBits(ev.ese, 8), !.sre = ToBits(ev.sre, 8)]
+                   ok == ev.same /\ ev.stb \in StbAllowed(s, ev.mav)
+               IN IF ok THEN TRUE ELSE PrintT(<<"BAD", l, ToJson([allowed |-> StbAllowed(s, ev.mav)])>>)
+            /\ UNCHANGED <<env, st>> /\ l' = l + 1
+
+TraceNext == Reset \/ Msg \/ Dev \/ Cap \/ PlainStb
 TraceSpec == TraceInit /\ [][TraceNext]_tvars
 
 Complete == IF TLCGet("stats").diameter - 1 = Len(Rec) THEN TRUE
